@@ -33,7 +33,7 @@ Open Scope Z_scope.
 Theorem c11_fidelity_partial : forall fs td ad, c11_wire_ok fs = true -> ad_no_group_start ad fs ->
   exists m, do_parsing (ser fs) td ad = Ok m /\                                (* accepted *)
     m_raw m = Some (ser fs) /\                                                 (* raw bytes unchanged *)
-    m_fields m = map init_of fs ++ repeat tv_zero (count_byte SOH (ser fs) - length fs) /\   (* field order preserved *)
+    m_fields m = map init_of fs /\                                             (* exactly the wire's fields, in order *)
     forall t v, c11_last_value fs t = Some v -> fm_get_bytes (parsed_section td t m) t = Ok v.  (* retrievable from its section *)
 Proof. exact parse_fidelity. Qed.
 
@@ -87,7 +87,7 @@ Theorem c11_parse_refines_scan : forall fs td d mt defs v8 v9 mid res,
   rg_scan (td_xh td) (td_xt td) (Some (map gdef_rg defs)) RgTop 3%nat mid [] = Ok res ->
   exists m, do_parsing (ser fs) td (Some d) = Ok m /\
     m_raw m = Some (ser fs) /\
-    m_fields m = map init_of fs ++ repeat tv_zero (count_byte SOH (ser fs) - length fs) /\
+    m_fields m = map init_of fs /\
     m_header m = fold_left (addH td) fs hdr0 /\
     m_trailer m = fold_left (addT td) fs trl0 /\
     m_body m = body_of fs res.
@@ -110,7 +110,7 @@ Theorem c11_fidelity_groups : forall td d mt defs v8 v9 v10 items fs,
   c11g_ok td defs (items ++ [CFld (10, v10)]) ->
   exists m, do_parsing (ser fs) td (Some d) = Ok m /\
     m_raw m = Some (ser fs) /\
-    m_fields m = map init_of fs ++ repeat tv_zero (count_byte SOH (ser fs) - length fs) /\
+    m_fields m = map init_of fs /\
     (forall t v, c11_last_value ((8, v8) :: (9, v9) :: (35, mt) :: c11g_flds (items ++ [CFld (10, v10)])) t = Some v ->
        fm_get_bytes (parsed_section td t m) t = Ok v) /\
     (forall before t T g after, items = before ++ CGrp t T g :: after ->
@@ -268,7 +268,7 @@ Theorem c11_parse_refines_scan_shipped : forall name doc d td fs mt defs v8 v9 m
   rg_scan (td_xh td) (td_xt td) (Some (map gdef_rg defs)) RgTop 3%nat mid [] = Ok res ->
   exists m, do_parsing (ser fs) td (Some (pd_app_dict d)) = Ok m /\
     m_raw m = Some (ser fs) /\
-    m_fields m = map init_of fs ++ repeat tv_zero (count_byte SOH (ser fs) - length fs) /\
+    m_fields m = map init_of fs /\
     m_header m = fold_left (addH td) fs hdr0 /\
     m_trailer m = fold_left (addT td) fs trl0 /\
     m_body m = body_of fs res.
